@@ -347,9 +347,14 @@ MUX_PREAMBLE = ('From Coq Require Import List ZArith Bool PrimFloat.\nImport Lis
                 'From RxVerif Require Import Base.Corr Mux.Val Mux.Sim Mux.SimExt Mux.Ops Mux.Syntax Mux.MuxCorr.\n')
 
 
+MODEL_TRACE_LIMIT = 450      # longer traces (the scale families) are judged by the oracles only
+
+
 def coq_muxcase(ast, trace, obs):
     if 'raised' in obs:
         return 'MCRaised'
+    if len(trace) > MODEL_TRACE_LIMIT:
+        return 'MCSkip'
     try:
         coq_pipe(ast)
     except ValueError:
